@@ -23,7 +23,10 @@ let () =
     let r = getS (List.nth a (List.length a - 1)) in
     let fields = split_str "_|_" r in
     let lz = List.hd fields in
-    if lz = "lazy_nothing" || String.length lz < 8 || String.sub lz 0 8 <> "lazy_ok_" then
+    if String.length r >= 4 && String.sub r 0 4 = "trap" then
+      (* reading or evaluating a valid composition must not trap *)
+      { model = "a result (no trap)"; spec = "a result (no trap)"; dom = false }
+    else if lz = "lazy_nothing" || String.length lz < 8 || String.sub lz 0 8 <> "lazy_ok_" then
       { model = "unspecified"; spec = "unspecified"; dom = false }
     else begin
       let body = String.sub lz 8 (String.length lz - 8) in           (* <shape>_;_<elems> or <shape>_; *)
